@@ -5,6 +5,7 @@ import (
 	"encoding/hex"
 	stdjson "encoding/json"
 	"fmt"
+	"sort"
 	"strings"
 
 	schema "github.com/jsightapi/jsight-schema-core"
@@ -417,6 +418,7 @@ func init() {
 			}
 		}
 		// Example keys
+		deep := ""
 		exk := "?"
 		if r, raw := opExample(s); raw != nil {
 			var ks []string
@@ -446,6 +448,32 @@ func init() {
 				}
 			}
 			exk = strings.Join(ks, ",")
+			// every key at every depth (sorted, once each): nested objects come from the inherited types too
+			var any interface{}
+			if stdjson.Unmarshal(raw, &any) == nil {
+				seen := map[string]bool{}
+				var walk func(v interface{})
+				walk = func(v interface{}) {
+					switch x := v.(type) {
+					case map[string]interface{}:
+						for k, c := range x {
+							seen[k] = true
+							walk(c)
+						}
+					case []interface{}:
+						for _, c := range x {
+							walk(c)
+						}
+					}
+				}
+				walk(any)
+				var all []string
+				for k := range seen {
+					all = append(all, k)
+				}
+				sort.Strings(all)
+				deep = strings.Join(all, ",")
+			}
 		} else {
 			exk = "err:" + r
 		}
@@ -471,7 +499,7 @@ func init() {
 			}
 			return s
 		}
-		return "check=ok keys=" + dash(strings.Join(inh, ",")) + " ex=" + dash(exk) + " info=" + dash(info)
+		return "check=ok keys=" + dash(strings.Join(inh, ",")) + " ex=" + dash(exk) + " info=" + dash(info) + " deep=" + dash(deep)
 	}
 }
 
